@@ -26,7 +26,9 @@ import (
 
 	"github.com/pdfcpu/pdfcpu/pkg/api"
 	"github.com/pdfcpu/pdfcpu/pkg/pdfcpu"
+	"github.com/pdfcpu/pdfcpu/pkg/pdfcpu/color"
 	"github.com/pdfcpu/pdfcpu/pkg/pdfcpu/model"
+	"github.com/pdfcpu/pdfcpu/pkg/pdfcpu/types"
 	"verif/vh"
 )
 
@@ -109,6 +111,14 @@ func conf() *model.Configuration {
 	return c
 }
 
+func textAnn() model.AnnotationRenderer {
+	return model.NewTextAnnotation(*types.NewRectangle(0, 0, 100, 100), 0, "Text Annotation", "ID1", "", 0, &color.Gray,
+		"Title1", nil, nil, "", "", 0, 0, 2, false, "Comment")
+}
+
+// during an incr case: the original bytes of the input (a file that is input ++ increment is tagged <tag>02)
+var incrBase []byte
+
 var wrData = bytes.Repeat([]byte("written by WriteReader\n"), 50)
 
 func opDefs(dir string) []opDef {
@@ -119,6 +129,11 @@ func opDefs(dir string) []opDef {
 		{name: "WriteReader", kind: "wr", noIn: true, run: func(in, out string) error { return pdfcpu.WriteReader(out, bytes.NewReader(wrData)) }},
 		{name: "MergeAppendFile", kind: "api", noIn: true, outPDF: true, run: func(in, out string) error {
 			return api.MergeAppendFile([]string{filepath.Join(dir, "in2.pdf")}, out, false, conf())
+		}},
+		// incremental writing: incr = true (honoured only for outFile "" / the same string: the increment is appended
+		// to the input; with a distinct outFile the usual staged full write)
+		{name: "AddAnnotationsFile-incr", kind: "incr", run: func(in, out string) error {
+			return api.AddAnnotationsFile(in, out, []string{"1"}, textAnn(), conf(), true)
 		}},
 		// the pkg/pdfcpu write path: createStagedFile + finishStagedFile
 		{name: "ExtractPagesFile", kind: "wr", noIn: true, dirOut: true, refRun: true, run: func(in, out string) error {
@@ -138,6 +153,9 @@ func opDefs(dir string) []opDef {
 			return api.AddTextWatermarksFile(in, out, nil, true, "Draft", "fo:Courier, scale:.9, op:.6", conf())
 		}},
 		{name: "RemovePagesFile", kind: "api", run: func(in, out string) error { return api.RemovePagesFile(in, out, []string{"2"}, conf()) }},
+		{name: "AddAnnotationsMapFile-incr", kind: "incr", run: func(in, out string) error {
+			return api.AddAnnotationsMapFile(in, out, map[int][]model.AnnotationRenderer{1: {textAnn()}}, conf(), true)
+		}},
 		{name: "SplitFile", kind: "wr", noIn: true, dirOut: true, refRun: true, run: func(in, out string) error {
 			return api.SplitFile(filepath.Join(dir, "in.pdf"), out, 3, conf())
 		}},
@@ -297,6 +315,9 @@ func render(before, after map[string]snapEntry, ref []byte) string {
 		tag := "ff"
 		if t, ok := content[string(e.data)]; ok {
 			tag = fmt.Sprintf("%02x", t)
+		} else if incrBase != nil && len(e.data) > len(incrBase) && bytes.HasPrefix(e.data, incrBase) &&
+			api.Validate(bytes.NewReader(e.data), nil) == nil {
+			tag = fmt.Sprintf("%02x02", content[string(incrBase)])
 		} else if sameOutput(e.data, ref) {
 			tag = "02"
 		}
@@ -378,6 +399,8 @@ func spArg(name string, sp int) string {
 // the bytes the operation produces for a destination that currently holds destContent (nil = new)
 func (h *harness) reference(o opDef, destName string, destContent []byte) []byte {
 	key := o.name + "\x00" + destName + "\x00" + string(destContent)
+	inPlaceRef := strings.HasSuffix(destName, "::inplace")
+	destName = strings.TrimSuffix(destName, "::inplace")
 	if b, ok := h.refs[key]; ok {
 		return b
 	}
@@ -394,6 +417,11 @@ func (h *harness) reference(o opDef, destName string, destContent []byte) []byte
 	arg := out
 	if o.dirOut {
 		arg = d
+	}
+	if inPlaceRef {
+		arg = "" // the increment is appended to the input itself
+	} else if o.kind == "incr" && destName == "in.pdf" {
+		arg = d + "/./in.pdf" // another spelling of the input: the staged full write, not the increment
 	}
 	ops := opDefs(d)
 	var b []byte
@@ -509,6 +537,13 @@ func (h *harness) runCase(o opDef, rel relation) {
 			ref = h.reference(def, destName, nil)
 		}
 	}
+	incrInPlace := def.kind == "incr" && (out == "" || out == in)
+	incrBase = nil
+	if incrInPlace {
+		incrBase = h.multi
+		ref = h.reference(def, "in.pdf::inplace", nil)
+		defer func() { incrBase = nil }()
+	}
 	var err error
 	func() {
 		defer func() {
@@ -548,6 +583,12 @@ func (h *harness) runCase(o opDef, rel relation) {
 			readsOK = "-"
 		}
 		r.Case("api", []string{umArg, rd, inF, outArg, mdir, minos}, res+"|"+rendered+"|"+readsOK)
+	case "incr":
+		readsOK := "reads-ok"
+		if err != nil {
+			readsOK = "-"
+		}
+		r.Case("incr", []string{umArg, spArg("in.pdf", rel.inSp), outArg, mdir, minos}, res+"|"+rendered+"|"+readsOK)
 	case "copy":
 		readsOK := "reads-ok"
 		if err != nil {
@@ -587,7 +628,18 @@ func (h *harness) runCase(o opDef, rel relation) {
 		fail("destination-not-the-complete-output")
 		okAll = false
 	}
-	if ok && (def.kind == "api" || (def.refRun && strings.HasSuffix(destName, ".pdf"))) {
+	if ok && incrInPlace {
+		// input ++ increment: the old bytes are a prefix, same inode
+		if !bytes.HasPrefix(got, h.multi) || len(got) <= len(h.multi) {
+			fail("increment-not-appended-to-input")
+			okAll = false
+		}
+		if after["in.pdf"].ino != before["in.pdf"].ino {
+			fail("increment-rebinds-input")
+			okAll = false
+		}
+	}
+	if ok && (def.kind == "api" || def.kind == "incr" || (def.refRun && strings.HasSuffix(destName, ".pdf"))) {
 		if verr := api.ValidateFile(filepath.Join(dir, destName), nil); verr != nil {
 			fail("destination-does-not-validate")
 			okAll = false
@@ -704,7 +756,7 @@ func main() {
 	os.Chdir(base)
 
 	defs := opDefs(base)
-	n := r.Pick(7, len(defs))
+	n := r.Pick(8, len(defs))
 	for _, o := range defs[:n] {
 		for _, rel := range relations() {
 			if o.kind == "copy" && rel.outName == "" {
